@@ -274,6 +274,26 @@ def run(ctx, budget=1.0):
         if len(pending) >= 60:
             flush(res, drv, pending)
     flush(res, drv, pending)
+    # low X rank first arguments: the z_list branch of inverse_circuit's first block (the code repaired in 74abae4; D42 made
+    # fidelity(a, a) = 0.5 exactly here) runs on most columns; generic random states almost never reach it
+    from harness.c11 import low_x_rank_state
+
+    for _ in range(int((80 if ctx.quick else 2000) * budget)):
+        n = rng.randrange(3, 9 if ctx.quick else 13)
+        a = low_x_rank_state(rng, n)
+        mode = rng.random()
+        if mode < 0.3:
+            b = su.regauge_clifford(a, rng)
+        elif mode < 0.5:
+            b = su.regauge_clifford(flip_sign(a, rng), rng)
+        elif mode < 0.8:
+            b = low_x_rank_state(rng, n)
+        else:
+            b = su.random_state(rng, n)
+        check_pair(res, a, b, "low-x-rank", pending)
+        if len(pending) >= 60:
+            flush(res, drv, pending)
+    flush(res, drv, pending)
     res.exhaustive = True
     res.notes.append("exhaustive over all ordered pairs of stabilizer states for n<=2; sampled for n=3 and above")
     res.extra["driver_lines"] = drv.n_lines
